@@ -28,11 +28,11 @@ ASSUMPTIONS = [
 ]
 COMPONENTS = c10.COMPONENTS | {"real_extra": ["filesystem (scratch dir) for targets and weights", "numba-compiled fitness functions"]}
 BUDGET = {"quick": {"n": 80, "wall": 115, "determinism": 2}, "thorough": {"n": 2000, "wall": 1700, "determinism": 6}}
-REQUIRED_REACH = ["range:equal", "range:shifted", "range:unequal", "range:oob", "range:none", "weights:list", "weights:file", "pairs>1", "multi_readout", "fitness:sum_of_abs_residuals", "fitness:sum_of_squared_residuals", "fitness:reduced_chi_squared", "simulated_checked", "evolutions>1"]
+REQUIRED_REACH = ["range:equal", "range:shifted", "range:unequal", "range:oob", "range:none", "weights:list", "weights:file", "pairs>1", "multi_readout", "fitness:sum_of_abs_residuals", "fitness:sum_of_squared_residuals", "fitness:reduced_chi_squared", "simulated_checked", "simulated_computed_under_scheduler", "evolutions>1"]
 
 
 def generate(rng, tier):
-    scn = calib.gen_calibration(rng, tier, fit_ranges="sub", multi_readout_p=0.3, weights_p=0.4, n_targets=(1, 1, 2, 3), islands=(1, 1, 2))
+    scn = calib.gen_calibration(rng, tier, fit_ranges="sub", multi_readout_p=0.3, weights_p=0.4, n_targets=(1, 1, 2, 3), islands=(1, 2, 2, 3))
     m = scn["mode"]
     rows, cols = scn["detector"]["row"], scn["detector"]["col"]
     multi = bool(scn["readout"].get("times"))
@@ -132,7 +132,10 @@ def execute(scn, forced=None):
         stats["evolutions>1"] = 1
     feat = feat_of(scn)
     valid = kind in ("equal", "shifted", "none")
-    rec = calib.run_calibration(scn, forced=forced, compute_simulated=False)
+    under_sim = m["num_islands"] >= 2 and valid
+    if under_sim:
+        stats["simulated_computed_under_scheduler"] = 1
+    rec = calib.run_calibration(scn, forced=forced, compute_simulated=under_sim)
     sim = rec.get("sim") or {}
     nev = len(calib.evaluations(scn, rec["hist"]))
     if not valid:
@@ -188,10 +191,13 @@ def execute(scn, forced=None):
 
             rt = m["result_type"]
             try:
-                with dask.config.set(scheduler="sync"):
-                    simd = np.asarray(tree[f"/simulated/{rt}"].compute().values)
-                    fulld = np.asarray(tree[f"/full_size/simulated_{rt}"].compute().values)
-                    tgt = np.asarray(tree["/simulated/target"].values)
+                if rec.get("simulated") is not None:
+                    simd, fulld, tgt = rec["simulated"][rt], rec["full_size"][rt], rec["simulated"]["target"]
+                else:
+                    with dask.config.set(scheduler="sync"):
+                        simd = np.asarray(tree[f"/simulated/{rt}"].compute().values)
+                        fulld = np.asarray(tree[f"/full_size/simulated_{rt}"].compute().values)
+                        tgt = np.asarray(tree["/simulated/target"].values)
                 stats["simulated_checked"] = 1
                 st, sy, sx = calib.slices(s2["mode"]["result_fit_range"], multi)
                 tt, ty, tx = calib.slices(s2["mode"]["target_fit_range"], multi)
